@@ -173,9 +173,55 @@ func TestTree(t *testing.T) { vrep.Run(t, "Tree", false, genTreeCase, checkTree)
 
 func TestReplay(t *testing.T) {
 	switch vrep.ReplayCheckName() {
-	case "Tree":
-		vrep.Replay(t, "Tree", checkTree)
+	case "Tree", "TreeEnum":
+		vrep.Replay(t, vrep.ReplayCheckName(), checkTree)
 	default:
 		replayOther(t)
 	}
+}
+
+// TestTreeEnum: small-scope exhaustive part — every nesting of up to three of the eight inline style
+// functions, and every structural helper around every such nesting of depth <= 2, over three leaves,
+// followed by each single layout operation.
+func TestTreeEnum(t *testing.T) {
+	leaves := []string{"a", "a\nb", " a  b\n\nc "}
+	layouts := [][]LayoutOp{nil, {{Op: "wrap", Width: 2}}, {{Op: "pad", Width: 3}}, {{Op: "indent", Width: 1, Prefix: "▌", First: true}}, {{Op: "dumbwrap", Width: 1}}, {{Op: "snip", Width: 3, Height: 1}}}
+	vrep.Each(t, "TreeEnum", false, true, func(yield func(TreeCase) bool) {
+		var rec func(node *vgen.SNode, depth int) bool
+		emit := func(node *vgen.SNode) bool {
+			for _, ops := range layouts {
+				if !yield(TreeCase{Tree: node, Ops: ops}) {
+					return false
+				}
+			}
+			return true
+		}
+		rec = func(node *vgen.SNode, depth int) bool {
+			if !emit(node) {
+				return false
+			}
+			if depth <= 2 {
+				for _, b := range vgen.BlockOps {
+					n := &vgen.SNode{Op: b, Kids: []*vgen.SNode{node}, N: 2}
+					if !emit(n) {
+						return false
+					}
+				}
+			}
+			if depth == 3 {
+				return true
+			}
+			for _, op := range vgen.InlineOps {
+				if !rec(&vgen.SNode{Op: op, Kids: []*vgen.SNode{node}}, depth+1) {
+					return false
+				}
+			}
+			return true
+		}
+		for _, l := range leaves {
+			if !rec(&vgen.SNode{Op: "text", Text: l}, 0) {
+				return
+			}
+		}
+	}, checkTree)
 }
